@@ -797,6 +797,13 @@ def _type_from_subscripted_value(
     elif is_typing_name(root, "Annotated"):
         origin, *metadata = members
         return _make_annotated(_type_from_value(origin, ctx), metadata, ctx)
+    elif is_typing_name(root, "Final") or is_typing_name(root, "ClassVar"):
+        # same treatment as in _value_of_origin_args
+        if len(members) != 1:
+            name = "Final" if is_typing_name(root, "Final") else "ClassVar"
+            ctx.show_error(f"{name} requires a single argument")
+            return AnyValue(AnySource.error)
+        return _type_from_value(members[0], ctx)
     elif is_typing_name(root, "TypeGuard"):
         if len(members) != 1:
             ctx.show_error("TypeGuard requires a single argument")
